@@ -304,10 +304,9 @@ def letterSpellings : List Spelling :=
 
 def immSpellings : List Spelling := immLetters.map Spelling.imm
 
-/-- digit strings of the explicit-register pattern `[0-31]{1,2}` (the class is the characters 0,1,2,3) -/
+/-- number strings of the explicit-register pattern `(?:[12]?[0-9]|3[01])`: 0 … 31, no leading zero -/
 def explicitDigits : List String :=
-  let d := ["0", "1", "2", "3"]
-  d ++ d.flatMap (fun a => d.map (fun b => a ++ b))
+  (List.range 32).map (fun (n : Nat) => (Nat.repr n : String))
 
 def explicitClasses : List Char := ['R', 'C', 'P', 'V', 'Q', 'M', 'G', 'S']
 
